@@ -24,34 +24,36 @@ def run(tier):
     quick = tier == "quick"
     rnd = tdsfam.rnd_for(PID)
 
+    rep.phase("model checking")
     mod = "MC_TDSLoopQ" if quick else "MC_TDSLoop"
     r = run_tlc(mod, mod + ".cfg", timeout=3000)
     rep.add_tlc(r, mod + " (segmented runs: RunResume)")
     if r["machinery_ok"] and r["violation"]:
         rep.note("design-level counterexample in %s: %s" % (mod, r["violation"]))
 
+    rep.phase("split scenarios")
     scen = [s for s in tdsfam.tlc_scenarios(rep) if len(s["segs"]) > 1 and len(s["fail"]) <= 1]
     rnd.shuffle(scen)
-    chosen = scen[:150 if quick else 5000]
+    chosen = scen[:110 if quick else 5000]
     real = []
     for k, s in enumerate(chosen):
-        sc = tdsfam.to_real(s, snapshot=(k % 3 == 2))
+        sc = tdsfam.to_real(s, snapshot=(k % (15 if quick else 3) == 2))
         sc["compare_single"] = not s["fail"]
         real.append(sc)
     # three segments / repeated interruption at the same time / split one step after an event
-    for k, s in enumerate([x for x in chosen if not x["fail"]][:40 if quick else 600]):
+    for k, s in enumerate([x for x in chosen if not x["fail"]][:30 if quick else 600]):
         s3 = dict(s)
         taus = [t["tau"] for t in s["timers"] if 0 < t["tau"] < 40]
         cut = (taus[0] if taus else 20)
         s3["segs"] = sorted({max(1, cut - 10), cut, min(39, cut + 1)}) + [40]
-        sc = tdsfam.to_real(s3, snapshot=(k % 4 == 3))
+        sc = tdsfam.to_real(s3, snapshot=(k % (20 if quick else 4) == 3))
         sc["compare_single"] = True
         real.append(sc)
     fl = [s for s in tdsfam.float_schedules(200 if quick else 3000, rnd, tf_max=2.0 if quick else 4.0) if len(s["segs"]) > 1]
-    fl = fl[:30 if quick else 800]
+    fl = fl[:24 if quick else 800]
     for k, s in enumerate(fl):
         s["compare_single"] = True
-        if k % 3 == 1:
+        if k % (10 if quick else 3) == 1:
             s["snapshot"] = True
             s["sid"] += "+snap"
     out = tdsfam.run_and_validate(real + fl, rep, timeout=600, label="split vs uninterrupted")
@@ -63,6 +65,7 @@ def run(tier):
         if o["status"] == "ok":
             rep.sample(dict(scenario=tdsfam._strip(sc), verdict=o["verdict"]))
 
+    rep.phase("lifecycle reset")
     lifecycle.run_family(rep, PID, quick, only=("reset",))
 
     rep.rule = ("split scenarios: TLC-enumerated (segments x events x stepping x <=1 failure), three-segment variants and "
